@@ -388,7 +388,7 @@ const keyNewGraph = "accepted-cyclic:graph.newGraph:self-dependency+optional-dep
 // judgeOutcomes: every real outcome must be one the model reaches under some iteration order; the spec decides the property.
 func judgeOutcomes(what string, specOf func(modelAnswer) *bool) func(args, real, drv json.RawMessage) *core.Verdict {
 	return func(args, real, drv json.RawMessage) *core.Verdict {
-		if v := core.CrashVerdict(real); v != nil {
+		if v := c10Crash(real); v != nil {
 			return v
 		}
 		var r struct {
@@ -453,6 +453,17 @@ func judgeOutcomes(what string, specOf func(modelAnswer) *bool) func(args, real,
 		return nil
 	}
 }
+
+// c10Crash: a panic or a dead process is a failure to answer with an error (property violation); a watchdog timeout
+// is not decided here (the machine may simply be overloaded; non-termination is property C01's subject).
+func c10Crash(real json.RawMessage) *core.Verdict {
+	if core.Class(real) == "hang" {
+		return core.Skip("no answer within the watchdog time")
+	}
+	return core.CrashVerdict(real)
+}
+
+const c10Timeout = 180 * time.Second
 
 // ---------------------------------------------------------------- digraph batches
 
@@ -542,6 +553,7 @@ func init() {
 		},
 		DriverOp: "c10.consistency",
 		Judge:    judgeOutcomes("checkConsistency", func(d modelAnswer) *bool { return d.Consistent }),
+		Timeout:  c10Timeout,
 	})
 	core.Register("c10.cycle", &core.CheckDef{
 		Real: func(raw json.RawMessage) any {
@@ -560,6 +572,7 @@ func init() {
 			}
 			return d.Acyclic
 		}),
+		Timeout: c10Timeout,
 	})
 	core.Register("c10.cycleBatch", &core.CheckDef{
 		Real: func(raw json.RawMessage) any {
@@ -581,7 +594,7 @@ func init() {
 		},
 		DriverOp: "c10.cycleBatch",
 		Judge: func(args, real, drv json.RawMessage) *core.Verdict {
-			if v := core.CrashVerdict(real); v != nil {
+			if v := c10Crash(real); v != nil {
 				return v
 			}
 			var a batchArgs
@@ -611,7 +624,7 @@ func init() {
 			}
 			return nil
 		},
-		Timeout: 60 * time.Second,
+		Timeout: c10Timeout,
 	})
 	core.Register("c10.validate", &core.CheckDef{
 		Real: func(raw json.RawMessage) any {
@@ -631,7 +644,7 @@ func init() {
 		DriverOp: "c10.validate",
 		Judge: func(args, real, drv json.RawMessage) *core.Verdict {
 			if c := core.Class(real); c == "fatal" || c == "hang" {
-				return core.CrashVerdict(real)
+				return c10Crash(real)
 			}
 			var d struct {
 				Out   json.RawMessage   `json:"out"`
@@ -654,6 +667,7 @@ func init() {
 			}
 			return core.Disagree(fmt.Sprintf("real outcome %s not among the model's failures %s", real, drv))
 		},
+		Timeout: c10Timeout,
 	})
 	core.RegisterProp("C10", runC10)
 }
